@@ -6,12 +6,12 @@ and the key context; `call` lines are answered with the model's key and bindings
 with the rendering of one value.  Text travels hex-encoded (UTF-8).
 
   sig <n> (<kind p|k|s|w> <name-hex> (- | <value>))*n          -> ok
-  tmpl auto <module-hex> <name-hex> <qualname-hex> <m> <excluded-name-hex>*m-> tmpl=<format string, hex>
-  tmpl ex <m> (L:<hex> | F:<hex>)*m                            -> tmpl=<format string, hex>
+  tmpl auto <module-hex> <name-hex> <qualname-hex> <m> <excluded-name-hex>*m-> tmpl=<format string, hex> sep=<0|1>
+  tmpl ex <m> (L:<hex> | F:<hex>)*m                            -> tmpl=<format string, hex> sep=<0|1>
   ctx <0|1 rewrite> <m> (<name-hex> <value>)*m                 -> ok
-  call <n> <value>*n <m> (<name-hex> <value>)*m                -> key=<hex|E> b=<bound|E> p=<bound|E> d=<bound|E> q=<bound|E>
+  call <n> <value>*n <m> (<name-hex> <value>)*m                -> key=<hex|E> path=<F|S|E> b=<bound|E> p=<bound|E> d=<bound|E> q=<bound|E>
   text <value>                                                 -> fast=<hex> slow=<hex> sty=<scalar type|->
-  value := s:<hex> | i:<int> | b:0 | b:1 | n | y:<hex> | t:<n> value*n | d:<n> (<key-hex> value)*n
+  value := s:<hex> | i:<int> | b:0 | b:1 | n | y:<hex> | t:<n> value*n | d:<n> (k:<key-hex> value)*n
 -/
 open CashewsVerif CashewsVerif.Proto CashewsVerif.KeyModel
 
@@ -71,7 +71,9 @@ where
     | 0, ts => some ([], ts)
     | _ + 1, [] => none
     | n + 1, k :: ts => do
-      let k ← strOfHex k
+      let k ← (match k.splitOn ":" with
+        | ["k", h] => strOfHex h
+        | _ => none)
       let (v, ts') ← parseVal fuel ts
       let (kvs, ts'') ← manyKv fuel n ts'
       pure ((k, v) :: kvs, ts'')
@@ -142,7 +144,7 @@ mutual
     | v :: r => encVal v ++ encVals r
   def encKvs : List (Str × PyVal) → List String
     | [] => []
-    | (k, v) :: r => hexOfStr k :: (encVal v ++ encKvs r)
+    | (k, v) :: r => ("k:" ++ hexOfStr k) :: (encVal v ++ encKvs r)
 end
 
 def encBVal : BVal → List String
@@ -178,12 +180,12 @@ def step (st : St) (line : String) : St × String :=
       match pNames m ts with
       | some (ex, []) =>
         let t := autoTemplate mod name qual ex st.sig
-        ({ st with tmpl := t }, "tmpl=" ++ hexOfStr t.toFormat)
+        ({ st with tmpl := t }, "tmpl=" ++ hexOfStr t.toFormat ++ (if separated t then " sep=1" else " sep=0"))
       | _ => (st, "bad-op")
     | _, _, _, _ => (st, "bad-op")
   | "tmpl" :: "ex" :: m :: ts =>
     match m.toNat?, pItems ts with
-    | some m, some t => if t.length = m then ({ st with tmpl := t }, "tmpl=" ++ hexOfStr t.toFormat) else (st, "bad-op")
+    | some m, some t => if t.length = m then ({ st with tmpl := t }, "tmpl=" ++ hexOfStr t.toFormat ++ (if separated t then " sep=1" else " sep=0")) else (st, "bad-op")
     | _, _ => (st, "bad-op")
   | "ctx" :: rw :: m :: ts =>
     match m.toNat? with
@@ -210,9 +212,14 @@ def step (st : St) (line : String) : St × String :=
             let key := match cacheKey st.sig st.tmpl st.ctx c with
               | some k => hexOfStr k
               | none => "E"
+            let path := match callValues st.sig c with
+              | some vals =>
+                let all := withCtx st.ctx vals
+                if fastPath st.tmpl all then "F" else "S"
+              | none => "E"
             let b := bind false st.sig c
             let p := bind true st.sig c
-            (st, s!"key={key} b={encBound b} p={encBound p} d={encBound (b.map (applyDefaults st.sig))} q={encBound (p.map (applyDefaults st.sig))}")
+            (st, s!"key={key} path={path} b={encBound b} p={encBound p} d={encBound (b.map (applyDefaults st.sig))} q={encBound (p.map (applyDefaults st.sig))}")
           | _ => (st, "bad-op")
       | _ => (st, "bad-op")
   | "text" :: ts =>
